@@ -103,3 +103,15 @@ char *mlog_get_line(int n)
 
 	return NULL;
 }
+
+#ifdef LIBRFN_VERIF
+/* Verification hook (compiled only with -DLIBRFN_VERIF): move the message
+ * counter, e.g. to just below its fold point, without logging 2^31 messages.
+ * The caller keeps the value congruent to the current one modulo the number
+ * of slots so that the slot mapping is unchanged.
+ */
+void mlog_verif_set_count(unsigned int count)
+{
+	log.head = count;
+}
+#endif
